@@ -307,10 +307,15 @@ def main(argv):
     # writes
     for n in range(1, 5):
         for op, params in WRITES.items():
-            for form in ("positional", "keyword", "defaults"):
+            for form, style in [(f_, s_) for f_ in ("positional", "keyword", "defaults") for s_ in ("sentinel", "falsy", "none", "realistic")]:
                 log = []
                 fc = FallbackClient([Cache(i, HIT, log) for i in range(n)])
-                vals = {p: ("arg", p) for p in params}
+                # the values the caller passes: recognisable sentinels; falsy ones (noreply=False, expire=0, an empty value, delay 0 - whatever the
+                # parameter's default is, what was passed is what must arrive); None for everything optional; ordinary ones
+                falsy = {"key": "k", "value": b"", "expire": 0, "noreply": False, "cas": b"0", "delay": 0}
+                realistic = {"key": "user:1", "value": b"payload", "expire": 300, "noreply": False, "cas": b"12", "delay": 5}
+                vals = {p: (("arg", p) if style == "sentinel" else falsy[p] if style == "falsy" else realistic[p] if style == "realistic" else
+                            (None if p in DEFAULTS else ("arg", p))) for p in params}
                 if form == "positional":
                     getattr(fc, op)(*[vals[p] for p in params])
                     want = tuple(vals[p] for p in params)
@@ -321,8 +326,8 @@ def main(argv):
                     req = [p for p in params if p not in DEFAULTS]
                     getattr(fc, op)(*[vals[p] for p in req])
                     want = tuple(vals[p] if p not in DEFAULTS else DEFAULTS[p] for p in params)
-                case = {"op": op, "form": form, "caches": n, "log": repr(log)}
-                ctx.case(("write", op, form, n), sample=case if (op == "cas" and n == 2 and form == "defaults") else None)
+                case = {"op": op, "form": form, "argument_values": style, "passed": repr(vals)[:120], "caches": n, "log": repr(log)}
+                ctx.case(("write", op, form, style, n), sample=case if (op == "cas" and n == 2 and form == "defaults" and style == "sentinel") else None)
                 ctx.count("write:" + op)
                 if len(log) != 1 or log[0][0] != 0 or log[0][1] != op:
                     ctx.violation("mutating operation not applied to exactly the first cache", case)
